@@ -111,8 +111,10 @@ func c14PairG[T any](par map[string]string, box func(int) T, unbox func(T) (int,
 	var tg *fpgo.CorDef[T]
 	tdone := make(chan struct{})
 	park := par["park"] == "1"
-	tg = fpgo.CorNewGenerics[T](func() {
+	tgReady := make(chan struct{})
+	effect := func() {
 		defer close(tdone)
+		<-tgReady
 		var seen []int
 		if hasStart {
 			var zero T
@@ -137,14 +139,41 @@ func c14PairG[T any](par map[string]string, box func(int) T, unbox func(T) (int,
 			seen = append(seen, xv)
 			log = append(log, rec{xv, y, ok})
 		}
-	})
-	if startNil {
-		var zero T
-		tg.StartWithVal(zero)
-	} else if startval > 0 {
-		tg.StartWithVal(box(startval))
+	}
+	if par["new"] == "1" {
+		// NewAndStart: the effect starts before the assignment to tg below is visible; it waits for tgReady
+		tg = (&fpgo.CorDef[T]{}).NewAndStart(effect)
+		close(tgReady)
 	} else {
-		tg.Start()
+		tg = fpgo.CorNewGenerics[T](effect)
+		close(tgReady)
+		if startNil {
+			var zero T
+			tg.StartWithVal(zero)
+		} else if startval > 0 {
+			tg.StartWithVal(box(startval))
+		} else {
+			tg.Start()
+		}
+	}
+	// again=sv:<v> / again=s: the start API is used a second time on the already started coroutine — it must be a
+	// no-op (in particular no second start value may be queued); againat=<ms> delays it into the running traffic
+	again := func() {
+		if ms, _ := strconv.Atoi(par["againat"]); ms > 0 {
+			time.Sleep(time.Duration(ms) * time.Millisecond)
+		}
+		switch a := par["again"]; {
+		case a == "s":
+			tg.Start()
+		case strings.HasPrefix(a, "sv:"):
+			v, _ := strconv.Atoi(a[3:])
+			tg.StartWithVal(box(v))
+		}
+	}
+	if par["againat"] == "" || par["againat"] == "0" {
+		again()
+	} else {
+		go again()
 	}
 	answers := make([][]int, len(reqs))
 	nilAnswers := make([]int, len(reqs))
@@ -454,6 +483,15 @@ func c14Gen(tier string, rng *rand.Rand, emit func(string)) map[string]interface
 		e(fmt.Sprintf("pair ty=%s shape=echo reqs=2,3,1 startval=nil seed=9 jitter=1 park=1", ty))
 		e(fmt.Sprintf("pair ty=%s shape=acc reqs=2,2 startval=6 seed=10 jitter=1 park=0", ty))
 		e(fmt.Sprintf("pair ty=%s shape=acc reqs=4,1 startval=0 seed=11 jitter=0 park=1", ty))
+	}
+	// the start API used more than once on the same coroutine: the second call is a no-op, the ordinary traffic that
+	// follows pairs as usual (StartWithVal;StartWithVal, Start;StartWithVal, NewAndStart;StartWithVal, StartWithVal;Start)
+	for _, at := range []int{0, 3} {
+		e(fmt.Sprintf("pair shape=fixed reqs=3,2 startval=9 seed=14 jitter=0 park=0 again=sv:77 againat=%d", at))
+		e(fmt.Sprintf("pair shape=echo reqs=2,2,2 startval=0 seed=15 jitter=0 park=0 again=sv:77 againat=%d", at))
+		e(fmt.Sprintf("pair shape=acc reqs=4 startval=0 seed=16 jitter=0 park=0 new=1 again=sv:77 againat=%d", at))
+		e(fmt.Sprintf("pair shape=fixed reqs=2,3 startval=6 seed=17 jitter=0 park=0 again=s againat=%d", at))
+		e(fmt.Sprintf("pair ty=any shape=fixed reqs=3 startval=nil seed=18 jitter=0 park=0 again=sv:77 againat=%d", at))
 	}
 	// zero / nil requests and yielded values are values like any other
 	for _, ty := range []string{"int", "any", "ptr"} {
